@@ -77,10 +77,13 @@ const string& GetTimeAsStringMS(string& result, const Tickval *tv, const unsigne
    oss << ':' << setw(2) << ptim->tm_min << ':';
 	if (dplaces)
 	{
-		const double secs((startTime->secs() % 60) + static_cast<double>(startTime->nsecs()) / Tickval::billion);
-		oss.setf(ios::showpoint);
-		oss.setf(ios::fixed);
-		oss << setw(3 + dplaces) << setfill('0') << setprecision(dplaces) << secs;
+		// the fraction is truncated, not rounded: rounding 59.9996 to three places would print "60.000"
+		// next to a minute that was not carried
+		static const unsigned scale[] { 1000000000, 100000000, 10000000, 1000000, 100000, 10000, 1000, 100, 10, 1 };
+		const unsigned dp(dplaces > 9 ? 9 : dplaces);
+		oss << setw(2) << ptim->tm_sec << '.' << setw(dp) << startTime->nsecs() / scale[dp];
+		if (dplaces > dp)
+			oss << setw(dplaces - dp) << 0;
 	}
 	else
 		oss << setfill('0') << setw(2) << ptim->tm_sec;
